@@ -21,8 +21,8 @@ theorem stack_map_request (ls : List Nat) :
     (stack ls : List (Ext Req Doc VR Resp E)).map (·.request) = ls.map (fun i => recWrap i { hook := .request }) := by
   simp [stack, recExt, List.map_map, Function.comp_def]
 
-theorem stack_map_parse (ls : List Nat) :
-    (stack ls : List (Ext Req Doc VR Resp E)).map (·.parse) = ls.map (fun i => recWrap i { hook := .parse }) := by
+theorem stack_map_parse (ls : List Nat) (q : String) :
+    (stack ls : List (Ext Req Doc VR Resp E)).map (fun e => e.parse q) = ls.map (fun i => recWrap i { hook := .parse, parent := q }) := by
   simp [stack, recExt, List.map_map, Function.comp_def]
 
 theorem stack_map_validation (ls : List Nat) :
@@ -66,17 +66,30 @@ theorem prepareAt_stack (ls : List Nat) (req : Req) :
 
 theorem pure_rel {α : Type} (ls : List Nat) (a : α) : ((a, []) : T α) = mapT (expand ls) (a, []) := rfl
 
-theorem stages_stack (B : Base Req Doc VR Op Resp E) (ls : List Nat) (hB : ExecNatural B ls) (req : Req) :
-    stages B (stack ls) req = mapT (expand ls) (stages B [] req) := by
+theorem stack_map_subscribe (ls : List Nat) :
+    (stack ls : List (Ext Req Doc VR Resp E)).map (·.subscribe) = ls.map (fun i => recWrap i { hook := .subscribe }) := by
+  simp [stack, recExt, List.map_map, Function.comp_def]
+
+/-- the parse stage under a recording stack, whatever the request form and the variant -/
+theorem parseAt_stack (P : PDefects) (B : Base Req Doc VR Op Resp E) (ls : List Nat) (req : Req) :
+    parseAt P B (stack ls) req = mapT (expand ls) (parseAt P B [] req) := by
+  unfold parseAt
+  split
+  · rfl
+  · rw [stack_map_parse, List.map_nil]
+    exact atSite_rel ls _ (fun _ => ((parseFut B req, []) : T (Except E Doc))) (fun _ => (parseFut B req, [])) (pure_rel ls _)
+
+theorem parseAt_nil_fst (P : PDefects) (B : Base Req Doc VR Op Resp E) (req : Req) :
+    (parseAt P B ([] : List (Ext Req Doc VR Resp E)) req).1 = parseFut B req := by
+  unfold parseAt
+  split <;> simp [atSite, runChain]
+
+theorem front_stack (P : PDefects) (B : Base Req Doc VR Op Resp E) (ls : List Nat) (req : Req) :
+    front P B (stack ls) req = mapT (expand ls) (front P B [] req) := by
   have hp := prepareAt_stack (Req := Req) (Doc := Doc) (VR := VR) (Resp := Resp) (E := E) ls req
   have hp1 : (prepareAt ([] : List (Ext Req Doc VR Resp E)) req).1 = .ok req := by simp [prepareAt, runPrepare]
-  have hd := atSite_rel ls { hook := .parse } (fun _ => ((B.parse req, []) : T (Except E Doc)))
-    (fun _ => (B.parse req, [])) (pure_rel ls _)
-  simp only [stages, hp, mapT_fst, hp1, stack_map_parse, stack_map_validation, stack_map_execute, List.map_nil, hd, mapT_snd]
-  have hd1 : (atSite { hook := .parse } [] (fun _ => ((B.parse req, []) : T (Except E Doc)))).1 = B.parse req := by
-    simp [atSite, runChain]
-  rw [hd1]
-  cases hpr : B.parse req with
+  simp only [front, hp, mapT_fst, hp1, parseAt_stack, stack_map_validation, List.map_nil, mapT_snd]
+  cases hpr : (parseAt P B ([] : List (Ext Req Doc VR Resp E)) req).1 with
   | error e => simp [mapT, expand_append]
   | ok doc =>
     have hv := atSite_rel ls { hook := .validation } (fun _ => ((B.validate req doc, []) : T (Except E VR)))
@@ -89,19 +102,212 @@ theorem stages_stack (B : Base Req Doc VR Op Resp E) (ls : List Nat) (hB : ExecN
     | ok vr =>
       cases hso : B.selectOp req doc with
       | error e => simp [mapT, expand_append]
-      | ok op =>
-        have hx := atSite_rel ls { hook := .execute }
-          (fun _ => B.exec (resolveAt (stack ls : List (Ext Req Doc VR Resp E))) (!(stack ls : List (Ext Req Doc VR Resp E)).isEmpty) req doc op vr)
-          (fun _ => B.exec (resolveAt ([] : List (Ext Req Doc VR Resp E))) false req doc op vr) (hB req doc op vr)
-        simp only [List.isEmpty_nil, Bool.not_true] at hx ⊢
-        simp only [hx]
-        simp [mapT, expand_append]
+      | ok op => simp [mapT, expand_append]
+
+theorem stagesP_stack (P : PDefects) (B : Base Req Doc VR Op Resp E) (ls : List Nat) (hB : ExecNatural B ls) (req : Req) :
+    stagesP P B (stack ls) req = mapT (expand ls) (stagesP P B [] req) := by
+  simp only [stagesP, front_stack, mapT_fst, mapT_snd, stack_map_execute, List.map_nil]
+  cases hf : (front P B ([] : List (Ext Req Doc VR Resp E)) req).1 with
+  | error e => simp [mapT]
+  | ok q =>
+    obtain ⟨req', doc, vr, op⟩ := q
+    have hx := atSite_rel ls { hook := .execute }
+      (fun _ => B.exec (resolveAt (stack ls : List (Ext Req Doc VR Resp E))) (!(stack ls : List (Ext Req Doc VR Resp E)).isEmpty) req' doc op vr)
+      (fun _ => B.exec (resolveAt ([] : List (Ext Req Doc VR Resp E))) false req' doc op vr) (hB req' doc op vr)
+    simp only [List.isEmpty_nil, Bool.not_true] at hx ⊢
+    simp only [hx]
+    simp [mapT, expand_append]
+
+theorem stages_stack (B : Base Req Doc VR Op Resp E) (ls : List Nat) (hB : ExecNatural B ls) (req : Req) :
+    stages B (stack ls) req = mapT (expand ls) (stages B [] req) :=
+  stagesP_stack {} B ls hB req
 
 /-- the whole request under a recording stack = the extension-free request, expanded -/
+theorem executeP_stack (P : PDefects) (B : Base Req Doc VR Op Resp E) (ls : List Nat) (hB : ExecNatural B ls) (req : Req) :
+    executeP P B (stack ls) req = mapT (expand ls) (executeP P B [] req) := by
+  simp only [executeP, stack_map_request, List.map_nil]
+  exact atSite_rel ls _ _ _ (stagesP_stack P B ls hB req)
+
 theorem execute_stack (B : Base Req Doc VR Op Resp E) (ls : List Nat) (hB : ExecNatural B ls) (req : Req) :
-    execute B (stack ls) req = mapT (expand ls) (execute B [] req) := by
-  simp only [execute, stack_map_request, List.map_nil]
-  exact atSite_rel ls _ _ _ (stages_stack B ls hB req)
+    execute B (stack ls) req = mapT (expand ls) (execute B [] req) :=
+  executeP_stack {} B ls hB req
+
+/-- a batch under a recording stack -/
+theorem executeBatch_stack (P : PDefects) (B : Base Req Doc VR Op Resp E) (ls : List Nat) (hB : ExecNatural B ls)
+    (reqs : List Req) :
+    executeBatch P B (stack ls) reqs = mapT (expand ls) (executeBatch P B [] reqs) := by
+  simp only [executeBatch, mapT, List.map_map]
+  have h : (fun r => executeP P B (stack ls) r) = fun r => mapT (expand ls) (executeP P B [] r) := by
+    funext r; exact executeP_stack P B ls hB r
+  simp only [Function.comp_def, h, mapT_fst, mapT_snd]
+  have hf := (expand_hom ls).flatten (reqs.map (executeP P B ([] : List (Ext Req Doc VR Resp E))))
+  simp only [List.map_map, Function.comp_def] at hf
+  rw [hf]
+
+/-- the event futures of a subscription do not care which pass-through stack runs their resolve hooks -/
+inductive EvsRel {α : Type} (ls : List Nat) : List (Unit → T α) → List (Unit → T α) → Prop where
+  | nil : EvsRel ls [] []
+  | cons {e1 e2 : Unit → T α} {r1 r2 : List (Unit → T α)} :
+      e1 () = mapT (expand ls) (e2 ()) → EvsRel ls r1 r2 → EvsRel ls (e1 :: r1) (e2 :: r2)
+
+def EventsNatural (B : SBase Req Doc VR Op Resp E) (ls : List Nat) : Prop :=
+  ∀ req doc op vr,
+    EvsRel ls
+      (B.events (resolveAt (stack ls : List (Ext Req Doc VR Resp E))) (!(stack ls : List (Ext Req Doc VR Resp E)).isEmpty) req doc op vr)
+      (B.events (resolveAt ([] : List (Ext Req Doc VR Resp E))) false req doc op vr)
+
+theorem events_sites (ls : List Nat) (s : Site) (evs1 evs2 : List (Unit → T Resp))
+    (h : EvsRel ls evs1 evs2) :
+    evs1.map (fun ev => atSite s (ls.map (fun i => recWrap i s)) ev) =
+      evs2.map (fun ev => mapT (expand ls) (atSite s [] ev)) := by
+  induction h with
+  | nil => rfl
+  | cons hab _ ih =>
+    simp only [List.map_cons, ih]
+    congr 1
+    exact atSite_rel ls s _ _ hab
+
+/-- the stream API under a recording stack -/
+theorem executeStream_stack (P : PDefects) (B : SBase Req Doc VR Op Resp E) (ls : List Nat)
+    (hB : ExecNatural B.toBase ls) (hE : EventsNatural B ls) (req : Req) :
+    executeStream P B (stack ls) req = mapT (expand ls) (executeStream P B [] req) := by
+  have hs := atSite_rel ls { hook := .subscribe } (fun _ => (((), []) : T Unit)) (fun _ => ((), [])) (pure_rel ls _)
+  simp only [executeStream, front_stack, mapT_fst, mapT_snd, stack_map_execute, stack_map_subscribe, List.map_nil, hs]
+  cases hf : (front P B.toBase ([] : List (Ext Req Doc VR Resp E)) req).1 with
+  | error e => simp [mapT, expand_append]
+  | ok q =>
+    obtain ⟨req', doc, vr, op⟩ := q
+    simp only
+    cases hsub : B.isSub op with
+    | true =>
+      have he := events_sites ls { hook := .execute } _ _ (hE req' doc op vr)
+      simp only [List.isEmpty_nil, Bool.not_true] at he ⊢
+      simp only [if_true, he, List.map_map, Function.comp_def, mapT_fst, mapT_snd]
+      have hfl := (expand_hom ls).flatten ((B.events (resolveAt ([] : List (Ext Req Doc VR Resp E))) false req' doc op vr).map
+        (fun ev => atSite { hook := .execute } [] ev))
+      simp only [List.map_map, Function.comp_def] at hfl
+      simp [mapT, expand_append, hfl]
+    | false =>
+      have hx := atSite_rel ls { hook := .execute }
+        (fun _ => B.exec (resolveAt (stack ls : List (Ext Req Doc VR Resp E))) (!(stack ls : List (Ext Req Doc VR Resp E)).isEmpty) req' doc op vr)
+        (fun _ => B.exec (resolveAt ([] : List (Ext Req Doc VR Resp E))) false req' doc op vr) (hB req' doc op vr)
+      have hd := hB req' doc op vr
+      simp only [List.isEmpty_nil, Bool.not_true] at hx hd ⊢
+      cases hq : P.streamQuerySkipsExecuteHook with
+      | true => simp [hd, mapT, expand_append]
+      | false => simp [hx, mapT, expand_append]
+
+-- ------------------------------------------------------------------ prepare hooks that rewrite the request
+
+theorem stackRw_map_request (lfs : List (Nat × (Req → Req))) :
+    (stackRw lfs : List (Ext Req Doc VR Resp E)).map (·.request) = (stack (lfs.map (·.1)) : List (Ext Req Doc VR Resp E)).map (·.request) := by
+  simp [stackRw, stack, rwExt, recExt, List.map_map, Function.comp_def]
+
+theorem stackRw_map_subscribe (lfs : List (Nat × (Req → Req))) :
+    (stackRw lfs : List (Ext Req Doc VR Resp E)).map (·.subscribe) = (stack (lfs.map (·.1)) : List (Ext Req Doc VR Resp E)).map (·.subscribe) := by
+  simp [stackRw, stack, rwExt, recExt, List.map_map, Function.comp_def]
+
+theorem stackRw_map_parse (lfs : List (Nat × (Req → Req))) (q : String) :
+    (stackRw lfs : List (Ext Req Doc VR Resp E)).map (fun e => e.parse q) = (stack (lfs.map (·.1)) : List (Ext Req Doc VR Resp E)).map (fun e => e.parse q) := by
+  simp [stackRw, stack, rwExt, recExt, List.map_map, Function.comp_def]
+
+theorem stackRw_map_validation (lfs : List (Nat × (Req → Req))) :
+    (stackRw lfs : List (Ext Req Doc VR Resp E)).map (·.validation) = (stack (lfs.map (·.1)) : List (Ext Req Doc VR Resp E)).map (·.validation) := by
+  simp [stackRw, stack, rwExt, recExt, List.map_map, Function.comp_def]
+
+theorem stackRw_map_execute (lfs : List (Nat × (Req → Req))) :
+    (stackRw lfs : List (Ext Req Doc VR Resp E)).map (·.execute) = (stack (lfs.map (·.1)) : List (Ext Req Doc VR Resp E)).map (·.execute) := by
+  simp [stackRw, stack, rwExt, recExt, List.map_map, Function.comp_def]
+
+theorem stackRw_resolveAt (lfs : List (Nat × (Req → Req))) :
+    resolveAt (stackRw lfs : List (Ext Req Doc VR Resp E)) = resolveAt (stack (lfs.map (·.1)) : List (Ext Req Doc VR Resp E)) := by
+  funext s
+  simp [resolveAt, stackRw, stack, rwExt, recExt, List.map_map, Function.comp_def]
+
+theorem stackRw_isEmpty (lfs : List (Nat × (Req → Req))) :
+    (stackRw lfs : List (Ext Req Doc VR Resp E)).isEmpty = (stack (lfs.map (·.1)) : List (Ext Req Doc VR Resp E)).isEmpty := by
+  cases lfs <;> rfl
+
+/-- the prepare chain of rewriting recorders hands the stages the rewritten request and records
+    what the plain recorders record -/
+theorem runPrepare_stackRw (lfs : List (Nat × (Req → Req))) (req : Req) :
+    runPrepare ((stackRw lfs : List (Ext Req Doc VR Resp E)).map (·.prepare)) req =
+      (.ok (rewritten lfs req), (lfs.map (·.1)).map (fun i => Ev.hook true i { hook := .prepare }) ++
+        (lfs.map (·.1)).reverse.map (fun i => Ev.hook false i { hook := .prepare })) := by
+  induction lfs generalizing req with
+  | nil => simp [stackRw, runPrepare, rewritten]
+  | cons p lfs ih =>
+    simp only [stackRw, List.map_cons, runPrepare, rewritten, List.foldl_cons] at ih ⊢
+    have hp : (rwExt p.1 p.2 : Ext Req Doc VR Resp E).prepare = fun r next =>
+        let x := next (p.2 r)
+        (x.1, Ev.hook true p.1 { hook := .prepare } :: x.2 ++ [Ev.hook false p.1 { hook := .prepare }]) := rfl
+    rw [hp]
+    simp only [ih]
+    simp [List.append_assoc]
+
+theorem prepareAt_stackRw (lfs : List (Nat × (Req → Req))) (req : Req) :
+    prepareAt (stackRw lfs : List (Ext Req Doc VR Resp E)) req =
+      prepareAt (stack (lfs.map (·.1)) : List (Ext Req Doc VR Resp E)) (rewritten lfs req) := by
+  simp only [prepareAt, runPrepare_stackRw, runPrepare_stack]
+
+theorem front_stackRw (P : PDefects) (B : Base Req Doc VR Op Resp E) (lfs : List (Nat × (Req → Req))) (req : Req) :
+    front P B (stackRw lfs) req = front P B (stack (lfs.map (·.1))) (rewritten lfs req) := by
+  simp only [front, parseAt, prepareAt_stackRw, stackRw_map_parse, stackRw_map_validation]
+
+/-- REWRITING: a stack of recording extensions whose prepare hooks rewrite the request behaves, in
+    response and in trace, like the plain recording stack on the rewritten request -/
+theorem executeP_stackRw (P : PDefects) (B : Base Req Doc VR Op Resp E) (lfs : List (Nat × (Req → Req))) (req : Req) :
+    executeP P B (stackRw lfs) req = executeP P B (stack (lfs.map (·.1))) (rewritten lfs req) := by
+  simp only [executeP, stagesP, front_stackRw, stackRw_map_request, stackRw_map_execute, stackRw_resolveAt, stackRw_isEmpty]
+
+theorem executeStream_stackRw (P : PDefects) (B : SBase Req Doc VR Op Resp E) (lfs : List (Nat × (Req → Req))) (req : Req) :
+    executeStream P B (stackRw lfs) req = executeStream P B (stack (lfs.map (·.1))) (rewritten lfs req) := by
+  simp only [executeStream, front_stackRw, stackRw_map_subscribe, stackRw_map_execute, stackRw_resolveAt, stackRw_isEmpty]
+
+-- ------------------------------------------------------------------ the extension-free front, explicitly
+
+/-- what `prepare_request` yields (no hook changes it) -/
+def frontVal (B : Base Req Doc VR Op Resp E) (req : Req) : Except E (Req × Doc × VR × Op) :=
+  match parseFut B req with
+  | .error e => .error e
+  | .ok doc =>
+    match B.validate req doc with
+    | .error e => .error e
+    | .ok vr =>
+      match B.selectOp req doc with
+      | .error e => .error e
+      | .ok op => .ok (req, doc, vr, op)
+
+/-- the markers of the parse stage -/
+def parseMarks (P : PDefects) (B : Base Req Doc VR Op Resp E) (req : Req) : List Ev :=
+  if P.preparsedSkipsParseHooks && (B.preparsed req).isSome then []
+  else [Ev.mark true { hook := .parse, parent := B.queryText req }, Ev.mark false { hook := .parse, parent := B.queryText req }]
+
+/-- the site markers of the extension-free front -/
+def frontMarks (P : PDefects) (B : Base Req Doc VR Op Resp E) (req : Req) : List Ev :=
+  [Ev.mark true { hook := .prepare }, Ev.mark false { hook := .prepare }] ++ parseMarks P B req ++
+    (match parseFut B req with
+     | .error _ => []
+     | .ok _ => [Ev.mark true { hook := .validation }, Ev.mark false { hook := .validation }])
+
+theorem front_nil (P : PDefects) (B : Base Req Doc VR Op Resp E) (req : Req) :
+    front P B ([] : List (Ext Req Doc VR Resp E)) req = (frontVal B req, frontMarks P B req) := by
+  simp only [front, prepareAt, parseAt, runPrepare, List.map_nil, frontVal, frontMarks, parseMarks]
+  by_cases hsk : (P.preparsedSkipsParseHooks && (B.preparsed req).isSome) = true
+  · simp only [hsk, if_true]
+    cases hp : parseFut B req with
+    | error e => simp
+    | ok doc =>
+      cases hv : B.validate req doc with
+      | error e => simp [atSite, runChain, hv]
+      | ok vr => cases hs : B.selectOp req doc <;> simp [atSite, runChain, hv, hs]
+  · simp only [hsk, if_false, Bool.false_eq_true]
+    cases hp : parseFut B req with
+    | error e => simp [atSite, runChain, hp]
+    | ok doc =>
+      cases hv : B.validate req doc with
+      | error e => simp [atSite, runChain, hp, hv]
+      | ok vr => cases hs : B.selectOp req doc <;> simp [atSite, runChain, hp, hv, hs]
 
 end
 
